@@ -88,12 +88,14 @@ def scenarios(tier):
                             domains=("hdlc",), frontier=2, assumptions=A, replay_cap=24, path_budget=1))
         out.append(Scenario(f"{which}: valid frames back to back, {mh * 2048} octets", stream_path(which, [[0x7E]], 0, [FRAME + [0x7E], ref.stuff(FRAME) + [0x7E, 0x7E]], mh * 2048, [1, 7, 4096]),
                             bounds={"period": "a spec frame + flag(s)", "total_octets": mh * 2048}, domains=("hdlc",), frontier=2, assumptions=A, replay_cap=24, path_budget=1))
-    out.append(Scenario(f"p1: prefix . (free period of {2 if q else 3})^m, {mp * 8192} octets", stream_path("p1", P1_PREFIXES, 2 if q else 3, None, mp * 8192, [64, 4096] if q else [7, 4096, 65536]),
-                        bounds={"prefixes": "'' | '/' | ident line | ident line + data line", "free_period_octets": 2 if q else 3, "total_octets": mp * 8192, "chunk_sizes": [64, 4096] if q else [7, 4096, 65536], "bound_asserted": 3 * 8192},
-                        domains=("p1",), frontier=2, assumptions=A, replay_cap=24, path_budget=1))
+    p1_free = [(2, 4 * 8192, [64, 4096])] if q else [(3, 5 * 8192, [4096]), (2, 66000, [1024, 65536])]
+    for pf, tot, chs in p1_free:
+        out.append(Scenario(f"p1: prefix . (free period of {pf})^m, {tot} octets, chunks {chs}", stream_path("p1", P1_PREFIXES, pf, None, tot, chs),
+                            bounds={"prefixes": "'' | '/' | ident line | ident line + data line", "free_period_octets": pf, "total_octets": tot, "chunk_sizes": chs, "bound_asserted": 3 * 8192},
+                            domains=("p1",), frontier=2, assumptions=A, replay_cap=24, path_budget=1))
     out.append(Scenario(f"p1: concrete periods (readouts back to back; endless data lines; text without LF), {mp * 8192} octets",
                         stream_path("p1", P1_PREFIXES, 0, [READOUT, list(b"1-0:1.8.0(000123*kWh)\r\n"), list(b"0123456789"), list(b"/LGF5E360\r\n")], mp * 8192, [64, 4096] if q else [7, 4096, 65536]),
-                        bounds={"periods": "valid readout | data line | 10 characters without LF | identification line", "total_octets": mp * 8192}, domains=("p1",), frontier=2, assumptions=A, replay_cap=24, path_budget=1))
+                        bounds={"chunk_sizes": [64, 4096] if q else [7, 4096, 65536], "periods": "valid readout | data line | 10 characters without LF | identification line", "total_octets": mp * 8192}, domains=("p1",), frontier=2, assumptions=A, replay_cap=24, path_budget=1))
     return out
 
 
